@@ -45,6 +45,20 @@ class P:
         return f"P#{self.idx}"
 
 
+class PE(P):
+    """objects that compare EQUAL by value (a, b) although they are different objects: two of them are two solutions"""
+    def __eq__(self, other):
+        return isinstance(other, P) and (self.a, self.b) == (other.a, other.b)
+
+    __hash__ = None
+
+
+class PF(P):
+    """objects that are FALSY (a user __bool__): an object is an object, whatever bool() says about it"""
+    def __bool__(self):
+        return self.a != 0
+
+
 @symbol
 @dataclass(eq=False)
 class H:
@@ -170,7 +184,8 @@ def _alarm(*a):
 def make_heap(case):
     seq = list if case.get('list_items') else tuple          # inner collections as (mutable) lists or as tuples
     nest = lambda g: seq(seq(x) if isinstance(x, list) else x for x in g)       # a collection of collections (and scalars)
-    objs = [P(a=o[0], b=o[1], s=o[2], items=seq(o[3]), n=o[4], f=o[5], pair=tuple(o[6]), idx=i,
+    cls = PE if case.get('value_equal') else PF if case.get('falsy_objects') else P
+    objs = [cls(a=o[0], b=o[1], s=o[2], items=seq(o[3]), n=o[4], f=o[5], pair=tuple(o[6]), idx=i,
               groups=nest(o[9]) if len(o) > 9 else (), dmap=dict.fromkeys(o[10]) if len(o) > 10 else {})
             for i, o in enumerate(case['heap'])]
     for i, o in enumerate(case['heap']):
